@@ -12,7 +12,10 @@ Part B (histories): a Hypothesis RuleBasedStateMachine over classes whose method
   (every strong reference the machine holds, then gc.collect()).  Invariants after every step: every
   retrieval and call equals the model computed once on a pristine copy; objects obtained from instance i
   are bound to i; repeated access gives equal results; every dropped instance has been reclaimed
-  (observed through weakref)."""
+  (observed through weakref).
+Part C (decorator objects): one kwoargs / posoargs (names, start=, end=) / autokwoargs(exceptions=) / annotate decorator object applied
+  to a first function, then to a second one and to the first again: each application advertises and does what a fresh decorator
+  object applied to that function advertises and does (or raises ValueError alike)."""
 import gc
 import inspect
 import itertools
@@ -400,6 +403,14 @@ class Base(object):
 
 class Sub(Base):
     pass
+
+class Bag(Base):
+    # a container: an instance is false in a boolean context while it is empty, and calls / the toggle rule change that
+    def __init__(self, marker):
+        Base.__init__(self, marker)
+        self.n = 0
+    def __len__(self):
+        return self.n
 '''
 METHODS = ['kw', 'auto', 'pos', 'fwd', 'fwde', 'dec']
 CALLS = {
@@ -432,7 +443,7 @@ def pristine_model():
     import sigtools
     g = realfn.load(CLASS_SRC)
     model = {}
-    for cls in ('Base', 'Sub'):
+    for cls in ('Base', 'Sub', 'Bag'):
         inst = g[cls]('M')
         for m in METHODS:
             model[(cls, m, 'bound', 'sigtools')] = sig_text(sigtools.signature, getattr(inst, m))
@@ -552,6 +563,14 @@ class History(object):
             self.problems.append(('guard-not-empty', 'recursion guard holds %d object(s) after the retrievals' % len(specifiers.as_forged.currently_computing)))
             specifiers.as_forged.currently_computing.clear()
 
+    def toggle(self, k):
+        """A container instance becomes empty / non-empty (its truth value flips)."""
+        i = self.pick(k)
+        if i is None or self.cls_of[i] != 'Bag':
+            return
+        self.log.append(['toggle', k])
+        self.instances[i].n = 1 - self.instances[i].n
+
     def classget(self, k):
         """The implicit class method, retrieved for the first time in this history or not: same answers."""
         cname = ('Base', 'Sub')[k % 2]
@@ -629,7 +648,8 @@ def run_history(ops, stats, enum=False):
 def st_history():
     from hypothesis import strategies as st
     op = st.one_of(
-        st.tuples(st.just('create'), st.sampled_from(['Base', 'Sub'])),
+        st.tuples(st.just('create'), st.sampled_from(['Base', 'Sub', 'Bag', 'Bag'])),
+        st.tuples(st.just('toggle'), st.integers(0, 3)),
         st.tuples(st.just('access'), st.integers(0, 3), st.sampled_from(METHODS), st.booleans()),
         st.tuples(st.just('retrieve'), st.integers(0, 3), st.sampled_from(METHODS), st.sampled_from(['sigtools', 'inspect']), st.sampled_from(['bound', 'class'])),
         st.tuples(st.just('call'), st.integers(0, 3), st.sampled_from(METHODS), st.integers(0, 2)),
@@ -670,7 +690,11 @@ def machine_run(arg):
         def first(self):
             self.h.create('Base')
 
-        @rule(cls=st.sampled_from(['Base', 'Sub']))
+        @rule(k=st.integers(0, 3))
+        def toggle(self, k):
+            self.h.toggle(k)
+
+        @rule(cls=st.sampled_from(['Base', 'Sub', 'Bag', 'Bag']))
         def create(self, cls):
             self.h.create(cls)
 
@@ -734,6 +758,132 @@ def machine_run(arg):
     return stats
 
 
+# ------------------------------------------------------------------------------ part C
+
+def make_deco(form, sel):
+    from sigtools import modifiers
+    if form == 'kwoargs':
+        return modifiers.kwoargs(*sel)
+    if form == 'posoargs':
+        return modifiers.posoargs(*sel)
+    if form == 'start':
+        return modifiers.kwoargs(*sel[1:], start=sel[0])
+    if form == 'end':
+        return modifiers.posoargs(*sel[1:], end=sel[0])
+    if form == 'auto':
+        return modifiers.autokwoargs(exceptions=sel)
+    if form == 'annotate':
+        return modifiers.annotate(**dict((n, 'ann_' + n) for n in sel))
+    raise AssertionError(form)
+
+
+def behaviour(g, spec):
+    """Advertised signature and call outcomes of a decorated function (or 'ValueError')."""
+    import sigtools
+    if isinstance(g, str):
+        return g
+    names = tuple(p.name for p in spec if p.kind in (PO, POK, KWO))[:4]
+    cap = sum(1 for p in spec if p.kind in (PO, POK))
+    out = [str(sigtools.signature(g)), str(inspect.signature(g))]
+    for n in range(cap + 2):
+        for r in range(len(names) + 1):
+            for K in itertools.combinations(names, r):
+                try:
+                    v = g(*[100 + i for i in range(n)], **{k: 'k_' + k for k in K})
+                    v = dict(v)
+                    v.pop('__fn__', None)
+                    out.append(repr(sorted(v.items())))
+                except TypeError:
+                    out.append('TypeError')
+    return out
+
+
+def check_reuse(case, stats):
+    """One decorator object applied to several functions: the second (third) application behaves like a fresh decorator object."""
+    spec1, spec2, form, sel = case
+    stats.case()
+    spec1, spec2 = c12.with_defaults(tuple(spec1)), c12.with_defaults(tuple(spec2))
+
+    def apply(deco, spec):
+        try:
+            return deco(c12.twin(realfn.plain_function(spec, 'f')))
+        except ValueError:
+            return 'ValueError'
+    try:
+        deco = make_deco(form, sel)
+        fresh = make_deco(form, sel)
+    except ValueError:
+        stats.cls('C/decorator-construction-raises')
+        return
+    first = apply(deco, spec1)
+    second = apply(deco, spec2)
+    again = apply(deco, spec1)
+    want2 = apply(fresh, spec2)
+    want1 = apply(make_deco(form, sel), spec1)
+    desc = '%s%r applied to def f(%s), then to def f(%s)' % (form, sel, universe.spec_text(spec1), universe.spec_text(spec2))
+    jc = {'part': 'C', 'spec1': [list(p) for p in spec1], 'spec2': [list(p) for p in spec2], 'form': form, 'sel': sel}
+    b2, w2 = behaviour(second, spec2), behaviour(want2, spec2)
+    stats.cls('C/%s/%s-then-%s' % (form, 'raises' if first == 'ValueError' else 'applies', 'raises' if w2 == 'ValueError' else 'applies'))
+    if b2 != w2:
+        diff = next((i for i, (x, y) in enumerate(zip(b2, w2)) if x != y), None) if not isinstance(b2, str) and not isinstance(w2, str) else None
+        stats.fail('C18/C/second-use-differs/%s' % form, jc,
+                   '%s: the second function %s, a fresh decorator object gives %s' % (
+                       desc, b2 if isinstance(b2, str) else 'advertises %s / %s (first differing observation #%s: %s)' % (b2[0], b2[1], diff, b2[diff] if diff is not None else '-'),
+                       w2 if isinstance(w2, str) else '%s / %s (%s)' % (w2[0], w2[1], w2[diff] if diff is not None else '-')))
+        return
+    b1, w1 = behaviour(again, spec1), behaviour(want1, spec1)
+    if b1 != w1:
+        stats.fail('C18/C/third-use-differs/%s' % form, jc, '%s and to the first again: %s, a fresh decorator object gives %s' % (
+            desc, b1 if isinstance(b1, str) else b1[:2], w1 if isinstance(w1, str) else w1[:2]))
+        return
+    if first != 'ValueError' and want2 != 'ValueError' and spec1 != spec2:
+        stats.nontriv(('C', form, tuple(sel), universe.spec_text(spec1), universe.spec_text(spec2)))
+        stats.sample('C/' + form, {'decorator': '%s%r' % (form, sel), 'first': universe.spec_text(spec1), 'second': universe.spec_text(spec2), 'advertised': b2[0]})
+
+
+def st_reuse():
+    from hypothesis import strategies as st
+    names = ('a', 'b', 'c', 'd')
+
+    @st.composite
+    def pokspec(draw):
+        # the same names as ordinary parameters in another order (what a decorator object remembers about one function
+        # then means something else for the next)
+        ns = list(draw(st.permutations(names)))[:draw(st.integers(2, 4))]
+        first_default = draw(st.integers(0, len(ns)))
+        spec = [Par(n, POK, '1' if i >= first_default else None, None) for i, n in enumerate(ns)]
+        if draw(st.integers(0, 3)) == 0:
+            spec.append(Par('args', VP, None, None))
+        if draw(st.integers(0, 3)) == 0:
+            spec.append(Par('kwargs', VK, None, None))
+        return tuple(spec)
+
+    @st.composite
+    def build(draw):
+        gen = pokspec() if draw(st.booleans()) else universe.st_spec(names, 4, ('args',), ('kwargs',))
+        s1 = draw(gen)
+        s2 = draw(gen)
+        form = draw(st.sampled_from(['kwoargs', 'posoargs', 'start', 'start', 'end', 'end', 'auto', 'annotate']))
+        if form in ('start', 'end'):
+            sel = [draw(st.sampled_from(names))] + draw(st.lists(st.sampled_from(names), max_size=1))
+        else:
+            sel = draw(st.lists(st.sampled_from(names), min_size=0 if form == 'auto' else 1, max_size=2, unique=True))
+        return ([list(p) for p in s1], [list(p) for p in s2], form, sel)
+    return build()
+
+
+def check_reuse_hyp(case, stats):
+    s1, s2, form, sel = case
+    check_reuse((tuple(Par(*p) for p in s1), tuple(Par(*p) for p in s2), form, sel), stats)
+
+
+def shard_reuse(arg):
+    seed, n = arg
+    st = Stats()
+    hyp_search(st_reuse(), check_reuse_hyp, st, n, seed)
+    return st
+
+
 def enum_histories(arg):
     """Exhaustive sequences (length <= L) over a reduced alphabet, all starting with create."""
     prefix, L = arg
@@ -758,6 +908,8 @@ def run(ctx):
     total.merge(ctx.pmap(shard_hyp, [(s, nh // 16) for s in ctx.shard_seeds(16)]))
     nm = ctx.pick(160, 3200)
     total.merge(ctx.pmap(machine_run, [(s, nm // 16) for s in ctx.shard_seeds(16)]))
+    nr = ctx.pick(3200, 64000)
+    total.merge(ctx.pmap(shard_reuse, [(s + 70, nr // 16) for s in ctx.shard_seeds(16)]))
     alphabet_n = 9
     L = ctx.pick(4, 5)
     alphabet = [['access', 0, 'kw', True], ['access', 0, 'fwde', False], ['access', 1, 'dec', True], ['retrieve', 0, 'kw', 'inspect', 'bound'],
@@ -774,6 +926,8 @@ def replay(case, stats):
         check_orders_method(spec, [tuple(x) if not isinstance(x[1], list) else (x[0], x[1]) for x in case['steps']], stats)
     elif case.get('part') == 'B':
         run_history(case['history'], stats)
+    elif case.get('part') == 'C':
+        check_reuse((tuple(Par(*p) for p in case['spec1']), tuple(Par(*p) for p in case['spec2']), case['form'], case['sel']), stats)
     else:
         spec = tuple(Par(*p) for p in case['spec'])
         spec = tuple(p._replace(default='1') if p.default is not None else p for p in spec)
